@@ -37,6 +37,8 @@ package main
 //@   call 0 RefGroupBuilder).Finish assert arg_1 == (len(rootArgs) == 0)
 // C18: progress goes to stderr.
 //@   call 0 NewProgressMeter assert arg_0 == stderr
+// --show-refs lists the references on stderr (never in the report).
+//@   call 0 NewShowRefGrouper assert arg_1 == stderr
 // C10: the report is written to stdout only after a scan that returned no
 // error, and every failing phase makes the run fail.
 //@   call 0 io.WriteString assert scan_reached && scan1 == nil && arg_0 == stdout
